@@ -50,6 +50,7 @@ func runC19(c *ctx) {
 	c19Validators(c)
 	c19Chunks(c)
 	c19Refooter(c)
+	c19RefooterBoundaries(c)
 	c19Mutants(c)
 	c19CopiedHashless(c)
 	c19MergeAfterCorruption(c)
@@ -669,5 +670,131 @@ func c19MergeAfterCorruption(c *ctx) {
 			c.r.Add(Finding{Kind: "violation", Check: "merge-launders-corruption", Detail: fmt.Sprintf("after a merge over a corrupted source block a query returned %d of %d rows with a nil error", len(out.Rows), id), Replay: replay})
 		}
 		env.Stop()
+	}
+}
+
+// c19RefooterBoundaries: the deterministic edge of the re-footer space. For one uncompressed engine-written
+// file, (a) every block's filter section is re-declared with every size 0..8 at every offset of the filter
+// region (tiny sections: smaller than, equal to and just above the section's own framing), and (b) every
+// block is re-declared hashless (as an external writer may leave it) with its row data cut 1..8 bytes short,
+// and with a row's length prefix raised by 1..8 in a hashless copy. The helpers and the row scanner must
+// return errors or written rows - never panic, never a row that was not written.
+func c19RefooterBoundaries(c *ctx) {
+	cfg := bs.DefaultBloomSearchEngineConfig()
+	cfg.PartitionFunc = partitionFunc("p")
+	cfg.MaxBufferedTime = time.Hour
+	cfg.RowDataCompression = bs.CompressionNone
+	env := NewEnv(cfg)
+	env.IngestWait([]map[string]any{{"_id": 1, "p": "a", "m": "one"}, {"_id": 2, "p": "b", "m": "two two"}, {"_id": 3, "p": "a", "m": "three"}, {"_id": 4, "p": "c", "m": "4"}})
+	files, _ := AllFiles(env.Meta)
+	pub := env.Data.Published()
+	env.Stop()
+	if len(files) != 1 {
+		c.r.Note("refooter-boundaries: no base file")
+		return
+	}
+	data := pub[string(files[0].PointerBytes)]
+	meta0, _, err := bs.ReadFileMetadata(bytes.NewReader(data))
+	if err != nil {
+		c.r.Note("refooter-boundaries: base unreadable")
+		return
+	}
+	written := map[string]bool{}
+	for _, bm := range meta0.DataBlocks {
+		rows, _ := bs.ReadDataBlockRowData(bytes.NewReader(data), &bm)
+		sc := bs.NewBlockRowScanner(rows)
+		for {
+			row, ok, err := sc.Next()
+			if err != nil || !ok {
+				break
+			}
+			written[string(row)] = true
+		}
+	}
+	body := data[:meta0.BlockFilterRegionOffset+meta0.BlockFilterRegionSize]
+	fileFilter, _ := bs.VerifEncodeFilterSection(&meta0.BloomFilters)
+	rebuild := func(body []byte, blocks []bs.DataBlockMetadata) []byte {
+		mj, _ := json.Marshal(struct {
+			BloomFalsePositiveRate  float64
+			BlockFilterRegionOffset int
+			BlockFilterRegionSize   int
+			FileFilterSectionSize   int
+			DataBlocks              []bs.DataBlockMetadata
+		}{meta0.BloomFalsePositiveRate, meta0.BlockFilterRegionOffset, meta0.BlockFilterRegionSize, len(fileFilter), blocks})
+		return append(append([]byte(nil), body...), footerFor(mj, fileFilter)...)
+	}
+	try := func(what string, mutant []byte, bi int, replay map[string]any) {
+		c.r.Case(true, what)
+		c.r.Hit("refooter-boundary." + strings.SplitN(what, " ", 2)[0])
+		var md *bs.FileMetadata
+		var rerr error
+		if pv, _ := guarded(func() { md, _, rerr = bs.ReadFileMetadata(bytes.NewReader(mutant)) }); pv != nil {
+			c.r.Add(Finding{Kind: "violation", Check: "refooter-panic", Detail: fmt.Sprintf("ReadFileMetadata panicked (%s): %v", what, pv), Replay: replay})
+			return
+		}
+		if rerr != nil || bi >= len(md.DataBlocks) {
+			return
+		}
+		b := md.DataBlocks[bi]
+		var foreign string
+		pv, _ := guarded(func() {
+			if rows, err := bs.ReadDataBlockRowData(bytes.NewReader(mutant), &b); err == nil {
+				sc := bs.NewBlockRowScanner(rows)
+				for {
+					row, ok, err := sc.Next()
+					if err != nil || !ok {
+						break
+					}
+					// with a checksum a returned row is a written row; a hashless block can only promise that
+					// a row consists of bytes of the block's declared row data
+					if (b.HasRowDataHash && !written[string(row)]) || !bytes.Contains(mutant[b.RowDataOffset:b.RowDataOffset+b.RowDataSize], row) {
+						foreign = string(row)
+					}
+				}
+			}
+			bs.ReadDataBlockBloomFilters(bytes.NewReader(mutant), b)
+		})
+		if pv != nil {
+			c.r.Add(Finding{Kind: "violation", Check: "refooter-helper-panic", Detail: fmt.Sprintf("a read helper / the row scanner panicked on CRC-consistent metadata (%s): %v", what, pv), Replay: replay})
+		}
+		if foreign != "" {
+			c.r.Add(Finding{Kind: "violation", Check: "refooter-foreign-row", Detail: fmt.Sprintf("the row scanner returned a row that was never written / is not made of the block's declared row data (%s): %q", what, trunc(foreign, 120)), Replay: replay})
+		}
+	}
+	for bi := range meta0.DataBlocks {
+		// (a) tiny filter sections everywhere in the region
+		for size := 0; size <= 8; size++ {
+			for off := meta0.BlockFilterRegionOffset; off+size <= meta0.BlockFilterRegionOffset+meta0.BlockFilterRegionSize; off++ {
+				blocks := append([]bs.DataBlockMetadata(nil), meta0.DataBlocks...)
+				blocks[bi].BloomFilterOffset, blocks[bi].BloomFilterSize = off, size
+				try(fmt.Sprintf("tiny-section block %d: BloomFilterOffset=%d BloomFilterSize=%d", bi, off, size), rebuild(body, blocks), bi,
+					map[string]any{"block": bi, "BloomFilterOffset": off, "BloomFilterSize": size})
+			}
+		}
+		// (b) hashless block, row data cut short / a length prefix raised
+		orig := meta0.DataBlocks[bi]
+		for cut := 1; cut <= 8 && cut < orig.RowDataSize; cut++ {
+			blocks := append([]bs.DataBlockMetadata(nil), meta0.DataBlocks...)
+			blocks[bi].HasRowDataHash, blocks[bi].RowDataHash = false, 0
+			blocks[bi].RowDataSize -= cut
+			blocks[bi].UncompressedSize -= cut
+			try(fmt.Sprintf("short-rowdata block %d: hashless, RowDataSize and UncompressedSize %d short", bi, cut), rebuild(body, blocks), bi,
+				map[string]any{"block": bi, "cut": cut})
+		}
+		// positions of the length prefixes of this block
+		rows, _ := bs.ReadDataBlockRowData(bytes.NewReader(data), &orig)
+		pos := 0
+		for pos+4 <= len(rows) {
+			l := int(binary.LittleEndian.Uint32(rows[pos:]))
+			for add := 1; add <= 8; add++ {
+				b2 := append([]byte(nil), body...)
+				binary.LittleEndian.PutUint32(b2[orig.RowDataOffset+pos:], uint32(l+add))
+				blocks := append([]bs.DataBlockMetadata(nil), meta0.DataBlocks...)
+				blocks[bi].HasRowDataHash, blocks[bi].RowDataHash = false, 0
+				try(fmt.Sprintf("raised-prefix block %d: hashless, length prefix at %d raised from %d by %d", bi, pos, l, add), rebuild(b2, blocks), bi,
+					map[string]any{"block": bi, "prefix_at": pos, "raised_by": add})
+			}
+			pos += 4 + l
+		}
 	}
 }
